@@ -14,8 +14,10 @@ Shapes(c, s) == IF c \in {"other", "longoid"} /\ s > 0 THEN {"octets", "seq", "s
 (* signer (a token that takes its time) another complete signing over other content with another key runs from start to end             *)
 (* ... or with a signer that is busy: its first request takes more than a second and fails, the caller asks again                          *)
 Scheds == {"alone", "after_error", "overlapped", "busy"}
+(* a busy signer costs more than a second of waiting per configuration: it is crossed with size, type, shape and issuer only *)
 Init == done = FALSE /\ \E s \in Sizes, c \in Cts, k \in Keys, i \in Issuers, r \in Serials, sd \in Scheds : \E sh \in Shapes(c, s) :
-          cfg = [size |-> s, ct |-> c, shape |-> sh, key |-> k, issuer |-> i, serial |-> r, sched |-> sd]
+          /\ sd = "busy" => k = "k1" /\ r = "b1"
+          /\ cfg = [size |-> s, ct |-> c, shape |-> sh, key |-> k, issuer |-> i, serial |-> r, sched |-> sd]
 Next == ~done /\ done' = TRUE /\ UNCHANGED cfg
 Emit == done => PrintT(ToJson(cfg))
 =============================================================================
